@@ -55,6 +55,7 @@ type Contract struct {
 	checkFrame bool
 	noReturnOK bool
 	readsClock bool
+	MayPanic   []string
 	iface      bool
 	CallSites  map[string][]*Clause // "<callee text>#<ordinal>" -> requires evaluated in the caller's scope at that call
 	seals, opens bool // the function performs an AEAD seal / open whose ghost trace its ensures clauses describe
@@ -287,6 +288,10 @@ func parseContractFile(fset *token.FileSet, f *ast.File, pkgPath string) ([]*Con
 			c := &Clause{Kind: "modifies", Text: rest, Line: ln.pos}
 			last = c
 			cur.Modifies = append(cur.Modifies, c)
+		case "maypanic":
+			// maypanic "<message>": an explicit panic with this constant message is a declared refusal whose condition
+			// depends on values read during the call (no obligation is generated for it)
+			cur.MayPanic = append(cur.MayPanic, strings.Trim(rest, "\""))
 		case "panics":
 			r := strings.TrimSpace(strings.TrimPrefix(rest, "when"))
 			cur.PanicsWhen = append(cur.PanicsWhen, mk("panics", r))
